@@ -114,16 +114,24 @@ def run(tier, seed, replay_path):
     rep = Reporter(PROP, ev)
     if replay_path:
         return do_replay(replay_path)
-    for dev in ("DevNoneCharge", "DevKeepBonds", "DevWrongRow"):
-        expect_violation("MCMolEdit", cfg("Ids3", "Fr1", 3, True, dev), INV + PROPS, tag="c05dev")
+    from concurrent.futures import ThreadPoolExecutor
+    jobs = [lambda d=dev: expect_violation("MCMolEdit", cfg("Ids3", "Fr1", 3, True, d), INV + PROPS, tag="c05dev", workers=4)
+            for dev in ("DevNoneCharge", "DevKeepBonds", "DevWrongRow")]
     if tier == "quick":
-        one(tier, seed, ev, rep, "Molecule", "Ids3", "Fr1", 2, budget=30)
-        one(tier, seed, ev, rep, "Structure", "Ids3", "Fr1", 2, budget=12)
+        jobs += [lambda: one(tier, seed, ev, rep, "Molecule", "Ids3", "Fr1", 2, budget=25, maxview=1),
+                 lambda: one(tier, seed, ev, rep, "Structure", "Ids3", "Fr1", 2, budget=10, maxview=0),
+                 lambda: direction_b(tier, seed, ev, rep)]
+        with ThreadPoolExecutor(6) as ex:            # TLC runs in subprocesses: the pieces overlap
+            for f in [ex.submit(j) for j in jobs]:
+                f.result()
     else:
+        with ThreadPoolExecutor(3) as ex:
+            for f in [ex.submit(j) for j in jobs]:
+                f.result()
         one(tier, seed, ev, rep, "Molecule", "Ids3", "Fr1", 3, budget=240, maxview=0)
         one(tier, seed, ev, rep, "Molecule", "Ids3", "Fr1", 2, budget=150, maxview=2)
         one(tier, seed, ev, rep, "Structure", "Ids3", "Fr1", 2, budget=90, maxview=1)
-    direction_b(tier, seed, ev, rep)
+        direction_b(tier, seed, ev, rep)
     ev.set(rule="one case = one (model state, edit call) pair of the TLC graph replayed on a real Molecule/Structure; the "
                 "observation is keyed by atom identity; distinct_nontrivial = distinct pairs exercised within the time budget")
     ev.assumptions += ["self-bonds and parallel bonds are not generated", "coordinates of library-placed hydrogens are not compared"]
